@@ -47,7 +47,7 @@ def run():
         # travel over the datagram-like path, acks and requests over the reliable one
         for k, sc in enumerate(scripts[:6] if quick else scripts):
             scs.append(U.to_scenario("C01/%s/unreliable-path/%d" % (pol, k), sc, policy=pol, qos="unreliable", conn={"unreliable": True}))
-    scs += U.alias_reuse_scenarios("C01") + U.early_grant_scenarios("C01") + U.slow_ack_scenarios("C01")
+    scs += U.alias_reuse_scenarios("C01") + U.early_grant_scenarios("C01") + U.slow_ack_scenarios("C01") + U.empty_payload_scenarios("C01")
     # coupling spec <-> monitor (UpstreamMon.tla): the monitor MonC01 is fed, inside TLC, with the event stream an observer derives from
     # every behaviour of Upstream.tla; its safety clauses never fire and its final verdict is empty in every terminal state
     for pol in (["none"] if quick else ["none", "size", "immediate"]):
